@@ -19,12 +19,12 @@ NOTES = ("Every check is solver-based (DESIGN.md): Engine K = Kani/CBMC over the
          "counterexample that did not reproduce natively); it is never reported as success or as a violation. Known findings: known_findings.txt.")
 
 NOT_APPLICABLE = {
-    "C01": "not built yet (Engine S, see DESIGN.md section 5)",
+    "C01": "under construction",
     "C07": "not built yet",
     "C09": "not built yet",
     "C10": "harnesses under construction (not yet registered)",
     "C12": "harnesses under construction (not yet registered)",
-    "C15": "not built yet",
+    "C15": "under construction",
     "C16": "not built yet",
     "C17": "not built yet",
     "C19": "harnesses under construction (not yet registered)",
@@ -63,23 +63,26 @@ def kprop(level_text, level_note, assumptions=None, engines=("kani",), trusted=N
 UNREGISTERED = set(NOT_APPLICABLE)
 
 PROPS = {
-    "C03": kprop(
+    "C03": sprop(
         "Bit-precise bounded model checking of the bounds contract for every colour type (26 types x f32/f64 (+u8), plain and "
         "Alpha-wrapped): all finite component combinations are symbolic at once; clamp => within bounds, identity on in-bounds, "
         "idempotence, clamp_assign agreement, is_within_bounds <=> min/max accessors, slices up to length 3, and the FromColor / "
         "TryFromColor blanket impls on four cheap conversion pairs.",
         "Trusted: Kani/CBMC/cadical. NaN/inf components are outside the property. FromColor/TryFromColor are blanket impls (one "
-        "piece of code for all pairs); they are instantiated on Hsv<->Hwb and Xyz<->Yxy."),
+        "piece of code for all pairs); they are instantiated on harness colour types and on Hsv->Hwb. The Hwb/Okhwb clamp (two divisions by "
+        "a symbolic divisor) is additionally decided in real arithmetic by Engine S.", engines=("kani", "symx")),
     "C04": kprop(
         "Bounded model checking of every zero-copy cast entry point on representative instantiations: same address, lengths and "
         "capacities scale exactly, field order with alpha last, bit-identical round trips, rejection exactly on non-multiples with "
         "the buffer handed back; CBMC memory-safety checks cover the unsafe pointer casts. Buffers up to the stated small lengths.",
         "Trusted: Kani/CBMC/cadical and Kani's model of the allocator. Longer buffers are outside the bound; the length arithmetic is "
         "checked separately at symbolic usize."),
-    "C10": kprop(
-        "Bounded model checking of operator-variant agreement (by-value vs assigning vs slice vs Alpha-wrapped forms, darken/desaturate "
-        "vs negated lighten/saturate) bit for bit on the compiled code, for one representative type per macro family.",
-        "Trusted: Kani/CBMC/cadical. The real-valued operator algebra (mix end points, monotonicity, shorter hue arc) is decided by Engine S."),
+    "C10": sprop(
+        "Two halves. Algebra (Engine S): symbolic execution of the real mix / lighten / saturate / hue-shift / colour-scheme code; z3 "
+        "decides for all in-range colours and all factors in [-1,2] the end points, clamping of the factor, betweenness, the shorter hue "
+        "arc, monotonicity, reaching the limit at factor 1 and darken/desaturate = negated lighten/saturate. Variant agreement (Engine K): "
+        "by-value vs assigning vs slice vs Alpha-wrapped forms bit for bit on the compiled code, one representative type per macro family.",
+        "Trusted: z3, Kani/CBMC/cadical. Rounding of individual float operations is outside the algebra half.", engines=("kani", "symx")),
     "C12": kprop(
         "Bounded model checking of hex parsing/formatting, packed-integer channel orders and the named-colour table: strings are symbolic "
         "byte arrays up to the stated length (ASCII, and ASCII with embedded multi-byte scalars built valid by construction), packed "
@@ -102,6 +105,18 @@ PROPS = {
         "Bounded model checking of the real Serialize/Deserialize impls against an in-harness serde data-model back end (token recorder, "
         "self-describing and compact): round trip bit for bit, shape of Alpha / hue / metadata, missing alpha => opaque, helper forms.",
         "Trusted: Kani/CBMC/cadical; the in-harness serde back end. The JSON/RON text layer is outside the claim."),
+    "C01": sprop(
+        "Symbolic execution of the real conversion code: z3 decides for ALL colours of the stated boxes that every edge of the conversion "
+        "graph inverts (A->B->A within tolerance), that alternative routes (direct HSV<->HSL/HWB vs through RGB, TypeId shortcuts vs the "
+        "long route) agree, that a direct conversion is the composition along the derive's route (syntactic identity of the hash-consed "
+        "terms), and that Alpha wrapping leaves colour terms and alpha identical.",
+        "Trusted: z3. Round trips through the cusp-search spaces (Okhsl/Okhsv/HSLuv) and some cube-root round trips with inexact "
+        "published inverse matrices are thorough-tier or outside the claim (DESIGN.md section 9)."),
+    "C15": sprop(
+        "Symbolic execution of the real HSV/HSL/HWB <-> RGB code (SIMD and scalar path): z3 decides for every hue in [-720,720] and all "
+        "saturation/value/lightness/whiteness/blackness in bounds that RGB lies in [0,1], and for every in-gamut RGB that the results are "
+        "within bounds and convert back.",
+        "Trusted: z3. The Okhsl/Okhsv/Okhwb/HSLuv half of the property (degree >= 9 rational cusp search) is outside the claim, see DESIGN.md."),
     "C02": sprop(
         "Differential symbolic checking of every directly implemented conversion against an independent transcription of its published "
         "definition (CIE 15 with exact rational epsilon/kappa, the standards' transfer curves, Smith's hexcone HSV/HSL/HWB, Ottosson's "
@@ -130,12 +145,12 @@ PROPS = {
         "Trusted: Kani/CBMC/cadical; the mpmath evaluation of the published curves in kani/gen/c05.py (tables in kani/src/c05_tables.rs). "
         "The generic float<->float curves (powf) are decided by Engine S, not here. 16-bit ProPhoto error/round-trip obligations are thorough-tier.",
         ["reference thresholds come from the standards' constants, not from /repo"]),
-    "C11": kprop(
+    "C11": sprop(
         "Bit-precise bounded model checking of hue normalisation, equality and 8-bit conversion: all f32 (quick) / f64 (thorough) "
         "angles with |x| <= 2^20 are one symbolic input; range, congruence modulo 360, equality under whole turns, inequality, "
         "accessor consistency, u8 round trip and circle mapping are SAT-decided on the compiled code for all five hue types.",
         "Trusted: Kani/CBMC/cadical. The trigonometric half (from_cartesian / into_cartesian direction) is decided by Engine S. "
-        "Obligations containing two float divisions are thorough-tier."),
+        "Obligations containing two float divisions are thorough-tier.", engines=("kani", "symx")),
     "C06": {
         "engines": ["kani"],
         "technique": K_TECH,
